@@ -42,6 +42,9 @@ struct Ctx {
     real: Vec<Msg>,
     big: usize,
     crng: CryptoRng,
+    /// The outsider's long-lived identity secret: its successive bundles are rotations, not
+    /// identity changes.
+    outsider_identity: SecretKey,
     /// Ids of auth messages the attacker sent in this case (usable as pointers / dependencies).
     sent_auth: Vec<(Hash, &'static str)>,
 }
@@ -157,7 +160,11 @@ fn gen_key_bundle(c: &Ctx, rng: &mut Rng) -> Vec<Hostile> {
             return vec![Hostile { label: "key_bundle.replayed_foreign_author", author, args }];
         }
     }
-    let identity = SecretKey::from_rng(&c.crng).expect("rng");
+    let identity = if author.verifying_key() == c.outsider.verifying_key() && rng.chance(0.8) {
+        c.outsider_identity.clone()
+    } else {
+        SecretKey::from_rng(&c.crng).expect("rng")
+    };
     let prekey_secret = SecretKey::from_rng(&c.crng).expect("rng");
     let now = now_secs();
     let (label, lifetime): (&'static str, Lifetime) = match which {
@@ -599,8 +606,11 @@ pub async fn run_case(seed: u64, case: u64, n_msgs: usize, big: usize, want_samp
         real: w.log.clone(),
         big,
         crng: CryptoRng::from_seed(rng.array32()),
+        outsider_identity: SecretKey::from_bytes(rng.array32()),
         sent_auth: Vec::new(),
     };
+    // Accepted hostile messages, re-delivered once more at the end of the case (later position).
+    let mut accepted: Vec<(usize, Msg, Value)> = Vec::new();
 
     let mut seq: u32 = 1_000_000 + (rng.next_u32() % 1_000_000);
     let mut sent = 0usize;
@@ -685,8 +695,22 @@ pub async fn run_case(seed: u64, case: u64, n_msgs: usize, big: usize, want_samp
                 judge_total(&mut j, victim, &msg, &out2, "second", &ctx);
                 judge_redelivery(&mut j, victim, false, &msg, &before, &after, &out2, &ctx);
                 j.res.bump("hostile_accepted_then_reprocessed", 1);
+                accepted.push((victim, msg.clone(), ctx.clone()));
             }
         }
+    }
+
+    // Every accepted hostile message once more, now that later messages (e.g. newer key bundles of
+    // the same author) were processed in between.
+    rng.shuffle(&mut accepted);
+    for (victim, msg, ctx) in &accepted {
+        let gids = c.groups.clone();
+        let before = digest(&w.peers[*victim], &gids).await;
+        let out = process(&w.peers[*victim], msg).await;
+        let after = digest(&w.peers[*victim], &gids).await;
+        judge_total(&mut j, *victim, msg, &out, "third", ctx);
+        judge_redelivery(&mut j, *victim, false, msg, &before, &after, &out, ctx);
+        j.res.bump("hostile_accepted_reprocessed_at_end", 1);
     }
 
     // The victims must still be able to work: one honest publish + delivery per peer (recorded).
